@@ -376,7 +376,12 @@ func VerifySession(dlg delegation.Delegation, prfs []delegation.Delegation, ctx 
 	// exponential scan if there are other proofs that require attestations.
 	var aprfs []delegation.Proof
 	for _, p := range prfs {
-		if p.Capabilities()[0].Can() == "ucan/attest" {
+		// a delegation can not attest itself
+		if p.Link().String() == dlg.Link().String() {
+			continue
+		}
+		caps := p.Capabilities()
+		if len(caps) > 0 && caps[0].Can() == "ucan/attest" {
 			aprfs = append(aprfs, delegation.FromDelegation(p))
 		}
 	}
